@@ -103,7 +103,7 @@ def run(ctx):
             vecs.append(json.loads(json.loads('"' + m.group(1) + '"')))     # TLC prints the JSON text as a string literal
     rng = random.Random(ctx.seed)
     # slice: every refused vector class + a sample covering every option value
-    want = 4000 if ctx.thorough() else 700
+    want = 6000 if ctx.thorough() else 1500
     by = {}
     for v in vecs:
         by.setdefault((v["o"]["cmd"], v["accept"]), []).append(v)
@@ -121,6 +121,9 @@ def run(ctx):
                 seen |= vals
             else:
                 rest.append(v)
+        # refused vectors cost milliseconds: take many more of them
+        if not key[1]:
+            share = share * (6 if ctx.thorough() else 3)
         chosen += rest[:max(0, share - len(seen) // 3)]
     cli = vlib.build_cli()
     vlib.build_harness()
